@@ -61,7 +61,8 @@ fn gen_full_system(seed: u64) -> Plan {
     // long enough for the reporter (1 s loop) to run into the injected file errors
     let quiet = end + 1_500_000 + rng.below(1_500_000);
     plan.world.faults_until_ms = quiet / 1000;
-    sentinels(&mut plan, 8, quiet + 20_000);
+    let t = sentinels(&mut plan, 8, quiet + 20_000);
+    final_burst(&mut rng, &mut plan, t + 50_000);
     let last = plan.last_step_us();
     plan.world.horizon_ms = last / 1000 + 1200;
     plan
@@ -95,7 +96,8 @@ fn gen(seed: u64, idx: u64, _tier: Tier) -> Plan {
     let end = storm(&mut rng, &mut plan, n, sockets, 6000);
     // faults stop after the storm; then up to 8 sentinels
     plan.world.faults_until_ms = end / 1000 + 5;
-    sentinels(&mut plan, 8, end + 20_000);
+    let t = sentinels(&mut plan, 8, end + 20_000);
+    final_burst(&mut rng, &mut plan, t + 50_000);
     let last = plan.last_step_us();
     plan.world.horizon_ms = last / 1000 + 1200;
     plan
@@ -113,7 +115,7 @@ fn check(plan: &Plan, out: &RunOut) -> CheckOut {
     }
     // sentinels: sent after the last fault and the last garbage datagram
     let w = &out.world;
-    let sentinel_addrs: Vec<std::net::SocketAddr> = (0..8).map(|i| crate::reqs::client_addr(SENTINEL_SOCK + i)).collect();
+    let sentinel_addrs: Vec<std::net::SocketAddr> = (0..9).map(|i| crate::reqs::client_addr(SENTINEL_SOCK + i)).collect();
     let sent_sentinels: Vec<&crate::exec::SentReq> = out.ctx.sent.iter().filter(|s| s.sock >= SENTINEL_SOCK).collect();
     let mut answered_ok = 0;
     let mut answered_any = 0;
@@ -146,6 +148,27 @@ fn check(plan: &Plan, out: &RunOut) -> CheckOut {
             co.violate("C08", "wedged_no_sentinel_reply", format!("C08|wedged_no_sentinel_reply|workers_alive={}", workers_alive), format!("none of {} valid sentinel requests sent after the storm was answered", sent_sentinels.len()));
         } else if spec.fault_pct == 0 && answered_ok == 0 {
             co.violate("C08", "sentinel_reply_invalid", "C08|sentinel_reply_invalid".into(), "sentinel requests were answered but no reply verified although fault injection is off".into());
+        }
+        // "a valid request sent afterwards is answered": each sentinel that reached a worker's
+        // socket (faults have stopped, the path is clean; only a queue still full of storm
+        // leftovers can turn one away) must be read and answered, not merely some of them
+        let lost: std::collections::BTreeSet<u64> = w.history.iter().filter_map(|r| match &r.ev { dsim::Ev::Lost { dgram, .. } => Some(*dgram), _ => None }).collect();
+        if answered_any > 0 {
+            for sq in &sent_sentinels {
+                if lost.contains(&sq.dgram) {
+                    continue;
+                }
+                let answered = v.recvs.iter().any(|q| q.dgram == sq.dgram && q.answers.iter().any(|&si| v.sends[si].ok));
+                if !answered {
+                    let read = v.recvs.iter().any(|q| q.dgram == sq.dgram);
+                    co.violate(
+                        "C08",
+                        "wedged_no_sentinel_reply",
+                        format!("C08|sentinel_unanswered|read_by_worker={}", read),
+                        format!("sentinel request #{} from socket {} (sent at {:.6}s, after the storm and the last fault) reached a worker's socket but was {}", sq.dgram, sq.sock, sq.at as f64 / 1e9, if read { "read and never answered" } else { "never read: the worker stopped draining its socket" }),
+                    );
+                }
+            }
         }
         if let Some(l) = first_latency {
             if l > dsim::SEC {
